@@ -42,7 +42,7 @@ CLAIMED = {
             "Theorems (coq/props/C12.v): C12_idempotent_marked, C12_idempotent, C12_reparse_names, C12_reparse_partial, C12_selfcontained_partial, C12_parsed_selfcontained. Tie: for generated "
             "schemas and EVERY feasible subset of their named types parsed separately against a shared dict: schemaless writer/reader, validate, json writer/reader, container blocks + file "
             "readable on its own, canonical form, fingerprint, generate_many under a fixed random state must agree across the three forms (the statement itself), and with the model.",
-            "C12_piecewise proved (C12_piecewise, _fuel, _names, _core): for separately parsed pieces that are one named type each with distinct names, inlining the shared table into the piecewise-parsed parent gives, up to the two marker keys, exactly the parse of the parent with the pieces written inline at first use (same JSON, names, canonical form; self-contained); evaluated on generated splits against the implementation (thm:piecewise-instance). PARTIAL: pieces that are unions/several types, table-entry equality, and C12_ops_respect_equiv composed over a whole table (one inlining step proved) are decided by the correspondence only.", "§3 C12"),
+            "C12_piecewise proved (C12_piecewise, _fuel, _names, _core): for separately parsed pieces that are one named type each with distinct names, inlining the shared table into the piecewise-parsed parent gives, up to the two marker keys, exactly the parse of the parent with the pieces written inline at first use (same JSON, names, canonical form; self-contained); evaluated on generated splits against the implementation (thm:piecewise-instance). C12_reparse / C12_reparse_top: the parser is idempotent on its own output (same output, same dictionary) for a re-parse in the same state. PARTIAL: pieces that are unions/several types, table-entry equality, and C12_ops_respect_equiv composed over a whole table (one inlining step proved) are decided by the correspondence only.", "§3 C12"),
     "C13": ("Rocq proof: canonical form of the parsed schema = the specification's transformation applied to the raw JSON (C13_spec), invariance under the inductive closure of cosmetic edits, JSON-level fixed point; model and independent pcf vs to_parsing_canonical_form incl. Apache vectors",
             "Theorems (coq/props/C13.v): C13_spec (all simple_raw schemas incl. top-level unions), C13_cosmetic (+ instances), C13_fixed_point_json, C13_fixed_point (unconditional in the classes simple_raw + ns_closed; outside ns_closed it is false: C13_fixed_point_refuted / K2), C13_canonical_json_simple, 11 Apache vectors by vm_compute. "
             "Tie: canon.parse (model) = pcf (model) = implementation on generated schemas and cosmetic rewrites; fixed point through json.loads.",
@@ -59,7 +59,7 @@ CLAIMED = {
             "elaboration elab and py_of; values written back to back are read one by one. Tie: the model's write/read are evaluated on every generated "
             "(schema, datum, suffix) and compared with fastavro's bytes, value and stream position; the statement itself (independent conformance + "
             "normalisation predicate) is evaluated on the implementation for every case.",
-            "float leaves: C01_float_rounded_to_single / C01_float_widening_exact prove the 'rounded to IEEE single precision' clause against Flocq's real-number specification (stdlib Reals axioms + classic, named in the evidence); the patterns are validated bit-exactly against struct.pack; elab_typed (elab output is well typed) is validated per case, proved in ElabProofs when present.", "§3 C01"),
+            "float leaves: C01_float_rounded_to_single / C01_float_widening_exact prove the 'rounded to IEEE single precision' clause against Flocq's real-number specification (stdlib Reals axioms + classic, named in the evidence); the patterns are validated bit-exactly against struct.pack; C01_float_leaf_stable (what the writer wrote for a float survives read-then-write); C01_normal_form_fixed / C01_normalisation_idempotent: the normal form is a fixed point -- the value read back, written again under the same schema, gives the identical bytes and reads back as itself, under the boolean side condition closb0 (every union value read back plain re-resolves to the same branch; enum index = first occurrence; distinct map keys / field names) and floats_stable (derived for written values); elab_typed (elab output is well typed) is validated per case, proved in ElabProofs when present.", "§3 C01"),
     "C02": ("Rocq proof: specification equations of the encoder, varint/zig-zag/little-endian leaf specs, injectivity and decodability; byte-for-byte correspondence incl. leaf encoders on exhaustive boundary families",
             "Theorems (coq/props/C02.v): zig-zag closed form, base-128 digit characterisation (continuation bits, minimal length), little-endian fixed width, "
             "the 15 structural equations of the spec (one counted block + terminator, record = concatenation, union = index then value, byte-length prefixes), "
